@@ -286,6 +286,10 @@ class Evaluator(object):
         if isinstance(t, ast.Name):
             self.env[t.id] = v
             return
+        if isinstance(t, (ast.Tuple, ast.List)) and isinstance(v, (list, tuple)) and len(v) == len(t.elts):
+            for e, x in zip(t.elts, v):
+                self.assign(e, x)
+            return
         if isinstance(t, ast.Attribute):
             base = self.ev(t.value)
             if isinstance(base, Obj):
